@@ -986,6 +986,17 @@ def related_grid(tier):
                 order = [single, seq2, micro, seq1, plain] if n % 2 else [seq2, single, seq1, micro, plain]
                 if not kw or n % 3 == 0:
                     cases.append({'what': 'history', 'ops': order})
+    # contents that compare (and hash) equal but are different contents: 1 / True / '1' / b'1', 0 / False
+    # (bool is an int subclass; anything memoised on the content by == mixes them up), in every order of two
+    eq = [{'t': 'int', 'v': '1'}, {'t': 'bool', 'v': True}, {'t': 'int', 'v': '0'}, {'t': 'bool', 'v': False},
+          {'t': 'str', 'v': '1'}, {'t': 'bytes', 'v': '31'}]
+    for fn in ('make', 'make_qr'):
+        for a in eq:
+            for b in eq:
+                if a is not b:
+                    cases.append({'what': 'history', 'ops': [{'op': 'make', 'fn': fn, 'content': a, 'kw': {}},
+                                                              {'op': 'make', 'fn': fn, 'content': b, 'kw': {}},
+                                                              {'op': 'make', 'fn': fn, 'content': a, 'kw': {}}]})
     return cases
 
 
